@@ -108,9 +108,15 @@ def get_adjusted_url(url: str, addr: AddressTupleVXType) -> str:
     if not address.is_link_local:
         return url
 
+    try:
+        port = data.port
+    except ValueError:
+        # Port is not a number or out of range, nothing sensible to adjust.
+        return url
+
     netloc = f"[{data.hostname}%{addr[3]}]"
-    if data.port:
-        netloc += f":{data.port}"
+    if port:
+        netloc += f":{port}"
     return urlunsplit(data._replace(netloc=netloc))
 
 
